@@ -4,6 +4,7 @@ import (
 	"encoding/json"
 	"fmt"
 	"math"
+	"regexp"
 	"strings"
 
 	"github.com/evolbioinfo/gotree/io/utils"
@@ -79,6 +80,8 @@ type c01case struct {
 }
 
 // text-first formatting variants the writer never emits
+var c01tipLabelRe = regexp.MustCompile(`([(,])([^(),:;\[\]]+)`)
+
 func c01variant(s string, v int) string {
 	switch v {
 	case 1:
@@ -94,7 +97,8 @@ func c01variant(s string, v int) string {
 		if strings.Count(s, "[") > 0 {
 			return s
 		}
-		return strings.NewReplacer(",", "\n,", ")", "\n)", ":", "\n:").Replace(s)
+		// only after TIP labels (a label that follows "(" or ","): the reader strips blanks around tip names
+		return c01tipLabelRe.ReplaceAllString(s, "$1$2\n")
 	}
 	return s
 }
@@ -239,7 +243,7 @@ func init() {
 						c.Check(c01case{Model: txt}, func() (string, string) { return c01check(m, 0) })
 						c.Transitions += 3
 						if ndev <= 1 {
-							for v := 1; v <= 2; v++ {
+							for v := 1; v <= 3; v++ {
 								c.Check(c01case{Model: txt, Fmt: v}, func() (string, string) { return c01check(m, v) })
 								c.Transitions++
 							}
